@@ -603,7 +603,7 @@ var heartbeat int64
 func seqWorker(spec *SeqSpec) {
 	redisemu.VInit()
 	in := bufio.NewReaderSize(os.Stdin, 1<<20)
-	outw := bufio.NewWriterSize(os.Stdout, 1<<20)
+	outw := bufio.NewWriterSize(protoOut, 1<<20)
 	enc := json.NewEncoder(outw)
 	dec := json.NewDecoder(in)
 	cur := struct {
@@ -628,7 +628,7 @@ func seqWorker(spec *SeqSpec) {
 			}
 			if time.Since(lastChange) > 20*time.Second {
 				// the main goroutine is stuck inside the implementation
-				w := bufio.NewWriter(os.Stdout)
+				w := bufio.NewWriter(protoOut)
 				json.NewEncoder(w).Encode(seqTaskResult{Task: *t, Res: res, Hang: o})
 				w.Flush()
 				os.Exit(3)
@@ -779,6 +779,7 @@ func runSeqCheck(spec *SeqSpec, tier string, rep *Report) {
 					}
 					if err != nil {
 						// worker died (fatal error in the implementation: out of memory, concurrent map...)
+						wp.cmd.Process.Kill()
 						wp.cmd.Wait()
 						wp = nil
 						if attempt < 1 {
